@@ -156,6 +156,15 @@ def parse_message(
     if not isinstance(data, dict):
         raise ValueError("Message must be a dict or list")
 
+    # A JSON boolean or a fractional number is not a request id (the models
+    # would coerce true to 1 - which could then complete an unrelated pending
+    # request - and, without Pydantic, 1.5 to the string "1.5")
+    raw_id = data.get("id")
+    if isinstance(raw_id, bool) or (
+        isinstance(raw_id, float) and not raw_id.is_integer()
+    ):
+        raise ValueError("Invalid JSON-RPC id: must be a string or an integer")
+
     # For backward compatibility, try to parse with JSONRPCMessage first
     try:
         message = JSONRPCMessage.model_validate(data)  # type: ignore[attr-defined]
